@@ -103,13 +103,13 @@ Proof.
       * intros (v' & _ & Hv & He). injection Hv as <-. exact He.
     + intros H. injection H as <-. split; [discriminate|].
       intros (v & Hc & _). discriminate.
-  - destruct x; try discriminate.
-    + intros H. injection H as <-. split; [discriminate|]. intros (s & w & Hx & _). discriminate.
-    + destruct (lower_str s) as [w|e] eqn:E; cbn [bind]; [|discriminate].
-      destruct (has_newline w); [discriminate|]. intros H. injection H as <-. split.
-      * intros Hg. exists s, w. repeat split; auto. apply glob_spec. exact Hg.
-      * intros (s' & w' & Hx & Hl & Hg). injection Hx as <-. rewrite E in Hl. injection Hl as <-.
-        apply glob_spec. exact Hg.
+  - destruct x;
+      try (intros H; injection H as <-; split; [discriminate|]; intros (s & w & Hx & _); discriminate).
+    destruct (lower_str s) as [w|e] eqn:E; cbn [bind]; [|discriminate].
+    destruct (has_newline w); [discriminate|]. intros H. injection H as <-. split.
+    + intros Hg. exists s, w. repeat split; auto. apply glob_spec. exact Hg.
+    + intros (s' & w' & Hx & Hl & Hg). injection Hx as <-. rewrite E in Hl. injection Hl as <-.
+      apply glob_spec. exact Hg.
   - destruct x; try discriminate; try apply is_ne_spec;
       (intros H; rewrite H; split; [intros ->; reflexivity | intros H'; injection H' as ->; reflexivity]).
   - destruct x; try apply is_ne_spec.
@@ -525,6 +525,10 @@ Proof. reflexivity. Qed.
 Lemma lookup_ne : lookup_op [60; 62] = Ok ONe.
 Proof. reflexivity. Qed.
 
+Lemma split_eq v : split_op (61 :: v) = ([61], v).
+Proof. reflexivity. Qed.
+Lemma split_ne v : split_op (60 :: 62 :: v) = ([60; 62], v).
+Proof. reflexivity. Qed.
 Lemma newline_eq v : has_newline (61 :: v) = has_newline v.
 Proof. reflexivity. Qed.
 Lemma newline_ne v : has_newline (60 :: 62 :: v) = has_newline v.
@@ -535,7 +539,7 @@ Lemma parse_eq_text v w : is_num (VStr (61 :: v)) = Ok false -> has_newline v = 
   parse_criteria (VStr (61 :: v)) = Ok (COpText OEq w).
 Proof.
   intros H0 Hn Hv Hw Hl. unfold parse_criteria. rewrite H0. cbn [bind].
-  rewrite newline_eq, Hn. cbn [split_op fst snd]. rewrite lookup_eq. cbn [bind].
+  rewrite newline_eq, Hn, split_eq. cbn [fst snd]. rewrite lookup_eq. cbn [bind].
   rewrite Hv. cbn [bind is_eq andb]. rewrite Hw, Hl. reflexivity.
 Qed.
 Lemma parse_ne_text v w : is_num (VStr (60 :: 62 :: v)) = Ok false -> has_newline v = false ->
@@ -543,7 +547,7 @@ Lemma parse_ne_text v w : is_num (VStr (60 :: 62 :: v)) = Ok false -> has_newlin
   parse_criteria (VStr (60 :: 62 :: v)) = Ok (COpText ONe w).
 Proof.
   intros H0 Hn Hv Hl. unfold parse_criteria. rewrite H0. cbn [bind].
-  rewrite newline_ne, Hn. cbn [split_op fst snd]. rewrite lookup_ne. cbn [bind].
+  rewrite newline_ne, Hn, split_ne. cbn [fst snd]. rewrite lookup_ne. cbn [bind].
   rewrite Hv. cbn [bind is_eq andb]. rewrite Hl. reflexivity.
 Qed.
 Lemma parse_eq_num v n : is_num (VStr (61 :: v)) = Ok false -> has_newline v = false ->
@@ -551,7 +555,7 @@ Lemma parse_eq_num v n : is_num (VStr (61 :: v)) = Ok false -> has_newline v = f
   parse_criteria (VStr (61 :: v)) = Ok (CNumEq n).
 Proof.
   intros H0 Hn Hv Ht. unfold parse_criteria. rewrite H0. cbn [bind].
-  rewrite newline_eq, Hn. cbn [split_op fst snd]. rewrite lookup_eq. cbn [bind].
+  rewrite newline_eq, Hn, split_eq. cbn [fst snd]. rewrite lookup_eq. cbn [bind].
   rewrite Hv. cbn [bind is_eq andb]. rewrite Ht. reflexivity.
 Qed.
 Lemma parse_ne_num v n : is_num (VStr (60 :: 62 :: v)) = Ok false -> has_newline v = false ->
@@ -559,7 +563,7 @@ Lemma parse_ne_num v n : is_num (VStr (60 :: 62 :: v)) = Ok false -> has_newline
   parse_criteria (VStr (60 :: 62 :: v)) = Ok (COpNum ONe n).
 Proof.
   intros H0 Hn Hv Ht. unfold parse_criteria. rewrite H0. cbn [bind].
-  rewrite newline_ne, Hn. cbn [split_op fst snd]. rewrite lookup_ne. cbn [bind].
+  rewrite newline_ne, Hn, split_ne. cbn [fst snd]. rewrite lookup_ne. cbn [bind].
   rewrite Hv. cbn [bind is_eq andb]. rewrite Ht. reflexivity.
 Qed.
 
